@@ -329,6 +329,8 @@ impl<N: Ord + Clone, D> Node<N, D> {
     }
 
     fn rotate_left(&mut self) {
+        #[cfg(feature = "verif-hooks")]
+        crate::verif::hit("avl.rotate_left");
         let mut new_root = self.right.take().unwrap();
         let t1 = self.left.take();
         let t2 = new_root.left.take();
@@ -347,6 +349,8 @@ impl<N: Ord + Clone, D> Node<N, D> {
     }
 
     fn rotate_right(&mut self) {
+        #[cfg(feature = "verif-hooks")]
+        crate::verif::hit("avl.rotate_right");
         let mut new_root = self.left.take().unwrap();
         let t1 = new_root.left.take();
         let t2 = new_root.right.take();
